@@ -1855,6 +1855,28 @@ class Desugar(ast.NodeTransformer):
                     and out[-1].targets[0].id == st.value.args[0].id and isinstance(out[-1].value, ast.GeneratorExp):
                 st.value.args[0] = out[-1].value
                 out.pop()
+            # D1b: for x in IT: if P: v = E; break  else: v = None ; if v is [not] None: A else: B
+            #        ->  for x in IT: if P: v = E; <found branch>; break  else: <missing branch>           (the found branch has no break/continue of its own; E is the loop variable)
+            if isinstance(st, ast.For) and len(st.orelse) == 1 and isinstance(st.orelse[0], ast.Assign) and len(st.orelse[0].targets) == 1 \
+                    and isinstance(st.orelse[0].targets[0], ast.Name) and isinstance(st.orelse[0].value, ast.Constant) and st.orelse[0].value.value is None \
+                    and len(st.body) == 1 and isinstance(st.body[0], ast.If) and not st.body[0].orelse and len(st.body[0].body) == 2 \
+                    and isinstance(st.body[0].body[0], ast.Assign) and isinstance(st.body[0].body[1], ast.Break) and len(st.body[0].body[0].targets) == 1 \
+                    and isinstance(st.body[0].body[0].targets[0], ast.Name) and st.body[0].body[0].targets[0].id == st.orelse[0].targets[0].id \
+                    and isinstance(st.body[0].body[0].value, ast.Name) and isinstance(st.target, ast.Name) and st.body[0].body[0].value.id == st.target.id \
+                    and isinstance(nxt, ast.If) and isinstance(nxt.test, ast.Compare) and len(nxt.test.ops) == 1 and isinstance(nxt.test.ops[0], (ast.Is, ast.IsNot)) \
+                    and isinstance(nxt.test.left, ast.Name) and nxt.test.left.id == st.orelse[0].targets[0].id and isinstance(nxt.test.comparators[0], ast.Constant) \
+                    and nxt.test.comparators[0].value is None:
+                vname = st.orelse[0].targets[0].id
+                nvis = self.visit(nxt)
+                if isinstance(nvis, ast.If) and isinstance(nvis.test, ast.Compare):
+                    missing, found = (nvis.body, nvis.orelse) if isinstance(nvis.test.ops[0], ast.Is) else (nvis.orelse, nvis.body)
+                    later_reads = any(isinstance(x, ast.Name) and x.id == vname for s_ in body[i + 2:] for x in ast.walk(s_))
+                    if not any(isinstance(x, (ast.Break, ast.Continue)) for b_ in found for x in ast.walk(b_)) and not later_reads:
+                        st.body[0].body[1:1] = found
+                        st.orelse = list(missing)
+                        out.append(st)
+                        i += 2
+                        continue
             # D1: v = next((E for T in C if P), None) ; if v is None: RAISE   ->  for T in C: if P: v = E; break  else: RAISE
             if isinstance(st, ast.Assign) and len(st.targets) == 1 and isinstance(st.targets[0], ast.Name) and isinstance(st.value, ast.Call) \
                     and isinstance(st.value.func, ast.Name) and st.value.func.id == 'next' and len(st.value.args) == 2 \
